@@ -61,6 +61,13 @@ def items(tier):
     # products grown step by step (register a component, hang its parts under it, register the parts when their turn comes)
     for sp in F.three_level_product_specs() + F.nested_running_specs() + F.nested_order_specs():
         out.append((dict(sp, product_wire="register-and-link"), {"rule": "TSLACK", "max_time": F.seq_bound(sp) + 8}))
+        out.append((dict(sp, product_wire="part-first"), {"rule": "TSLACK", "max_time": F.seq_bound(sp) + 8}))  # parts registered first, hung under their (not yet registered) assembly, assembly registered last
+    # parts of a user subclass with value equality: two equal wheels (same part name), each with a task of its own
+    for wv in ((2.0, 3.0), (3.0, 1.0)):
+        wheels = dict(F.with_teams({"tasks": [{"name": "T0", "work": wv[0]}, {"name": "T1", "work": wv[1]}, {"name": "T2", "work": 1.0}], "links": [[0, 2, "FS"], [1, 2, "FS"]]}, "POOL2"),
+                      components=[{"name": "wheel", "id": "wheel-left", "tasks": [0]}, {"name": "wheel", "id": "wheel-right", "tasks": [1]}, {"name": "axle", "tasks": [2]}], value_eq_components=True)
+        for extra in ({}, {"absence": [1]}, {"post_insert": [1]}, {"post_insert": [2, 4]}, {"backward": True, "rev": True}):
+            out.append((wheels, dict({"rule": "TSLACK", "max_time": 16}, **extra)))
     # runs stopped at step k, looked at through every read-only helper (chart data, queries, printing), and continued
     for sp, o in list(out)[:: (9 if tier == "quick" else 3)]:
         if not (o.get("post_insert") or o.get("backward") or o.get("reload")):
